@@ -8,7 +8,7 @@ def readC : SExp → Option C
   | .atom "fori" => some .fori | .atom "fori_dyn" => some .foriDyn | .atom "cond" => some .cond
   | .atom "switch" => some .switch | .atom "grad" => some .grad | .atom "vmap_b" => some .vmapB
   | .atom "vmap_u" => some .vmapU | .atom "mvmap" => some .mvmap
-  | .atom "checkpoint" => some .opaque | .atom "custom_jvp" => some .opaque | .atom "custom_vjp" => some .opaque
+  | .atom "checkpoint" => some .opaque | .atom "custom_jvp" => some .customD | .atom "custom_vjp" => some .customD
   | _ => none
 
 def showOut : Out → String
